@@ -4,9 +4,7 @@ ID = "C19"
 LEVEL = "model_checking"
 MAIN = "c19"
 MODULES = ["geom", "stubs", "c19"]
-ACCESS = ["src__engine__transposition_table", "src__chess__movegen__tables__magics", "src__chess__movegen__tables__king",
-          "src__chess__movegen__tables__knights", "src__chess__movegen__tables__pawns", "src__chess__movegen__tables__between",
-          "src__chess__movegen__tables__mod", "src__chess__zobrist"]
+ACCESS = None
 DUMP = []
 PARALLEL = 11
 
@@ -47,6 +45,7 @@ def jobs(tier, seed):
         js.append(Job(f"c19_insert_n{n}", f"insert into arbitrary {n}-slot table: replacement policy, other slots, counters, invariant", params={"n": n}, timeout=1200))
         js.append(Job(f"c19_misc_n{n}", f"occupancy/new_generation/resize(same)/reset on arbitrary {n}-slot table", params={"n": n}, timeout=900))
     js.append(Job("c19_resize_smallest", "resize(0 MB) from an arbitrary table, then probe+insert+probe", timeout=900))
+    js.append(Job("c19_new_smallest", "TranspositionTable::new(0 MB), then probe+insert+probe", timeout=900))
     js.append(Job("c19_overwrite_policy", "should_overwrite_with vs the statement, all entry pairs", timeout=300, min_covers=2))
     return js
 
